@@ -596,3 +596,22 @@ V("C11-spans-intercept-always", "C11", ["C11.R3"], [(CONTRASTS, "        return 
 V("C11-format-shared", "C11", ["C11.R4"], [(CONTRASTS, '    FACTOR_FORMAT_REDUCED = "{name}[S.{field}]"', '    FACTOR_FORMAT_REDUCED = "{name}[{field}]"')])
 V("C11-coef-ones-always", "C11", ["C11.R5"], [(CONTRASTS, "        if reduced_rank:\n            coding_matrix = (spsparse if sparse else numpy).hstack(", "        if True:\n            coding_matrix = (spsparse if sparse else numpy).hstack(")])
 V("C11-sum-equiv-local", "C11", [], [(CONTRASTS, "        contr = spsparse.eye(n, n - 1).tolil() if sparse else numpy.eye(n, n - 1)", "        k = n - 1\n        contr = spsparse.eye(n, k).tolil() if sparse else numpy.eye(n, k)")])
+
+# ----------------------------------------------------------------------------------------- C16
+CONS = "formulaic/utils/constraints.py"
+V("C16-sub-rightonly-positive", "C16", ["C16.R2"], [(CONS, """            added.update(
+                negate_terms({term for term in terms_right if term not in added})
+            )""", """            added.update({term for term in terms_right if term not in added})""")], "`a - b` would become a + b when b only occurs on the right")
+V("C16-sub-both-plus", "C16", ["C16.R2"], [(CONS, "                    term = term - terms_right[term]", "                    term = term + terms_right[term]")])
+V("C16-add-rightonly-negated", "C16", ["C16.R2"], [(CONS, "            added.update({term for term in terms_right if term not in added})\n", "            added.update({-term for term in terms_right if term not in added})\n")])
+V("C16-eq-no-negate", "C16", ["C16.R2"], [(CONS, "to_terms=lambda lhs, rhs: add_terms(lhs, negate_terms(rhs)),", "to_terms=lambda lhs, rhs: add_terms(lhs, rhs),")])
+V("C16-minus-swapped", "C16", ["C16.R2"], [(CONS, "to_terms=lambda left, right: sub_terms(left, right),", "to_terms=lambda left, right: sub_terms(right, left),")])
+V("C16-div-inverted", "C16", ["C16.R2"], [(CONS, "scale=term_left.scale / term_right.scale", "scale=term_right.scale / term_left.scale")])
+V("C16-mul-keeps-wrong-factor", "C16", ["C16.R2"], [(CONS, "            if term_left.factor == 1:\n                return ScaledFactor(\n                    term_right.factor,", "            if term_left.factor == 1:\n                return ScaledFactor(\n                    term_left.factor,")])
+V("C16-neg-identity", "C16", ["C16.R2"], [(CONS, "        return ScaledFactor(self.factor, scale=-self.scale)", "        return ScaledFactor(self.factor, scale=self.scale)")])
+V("C16-b-sign", "C16", ["C16.R3"], [(CONS, "            constants.append(-constant)", "            constants.append(constant)")])
+V("C16-vector-minus", "C16", ["C16.R3"], [(CONS, "                    vector += (\n                        scaled_factor.scale", "                    vector -= (\n                        scaled_factor.scale")])
+V("C16-mapping-minus", "C16", ["C16.R3"], [(CONS, "                constants.append(values + numpy.array(constant))", "                constants.append(values - numpy.array(constant))")])
+V("C16-star-below-plus", "C16", ["C16.R1"], [(CONS, '                "*",\n                arity=2,\n                precedence=200,', '                "*",\n                arity=2,\n                precedence=50,')])
+V("C16-minus-right-assoc", "C16", ["C16.R1"], [(CONS, '                "-",\n                arity=2,\n                precedence=100,\n                associativity="left",', '                "-",\n                arity=2,\n                precedence=100,\n                associativity="right",')])
+V("C16-rename-equiv", "C16", [], [(CONS, "        def negate_terms(terms: set[ScaledFactor]) -> set[ScaledFactor]:\n            return {-term for term in terms}", "        def negate_terms(ts: set[ScaledFactor]) -> set[ScaledFactor]:\n            return {-t for t in ts}")])
